@@ -1,10 +1,12 @@
-SPECIFICATION SSpec
+SPECIFICATION TSpec
 CONSTANTS
   NA = 3
   Rounds = 1
   PerRound = 1
   NotifyMode = "token"
-  TempApps = {}
+  TempApps = {2, 3}
   ExitMode = "recheck"
-INVARIANTS FIFO DrainSound NoHang LockOK
+INVARIANTS FIFO LockOK
+CONSTRAINT Mark
+POSTCONDITION Accepted
 CHECK_DEADLOCK FALSE
